@@ -184,6 +184,22 @@ class C17(Prop):
         'skeleton invariance under text neutralisation',
     )
 
+    def selfcheck(self):
+        """The scanner must reject known-bad outputs and accept a known-good one."""
+        pre, post = '\\documentclass{article}\n\\begin{document}\n', '\\end{document}\n'
+        bad = ['a\\b', 'a { b', 'a } b', 'a $x$ b', '50% off', 'a_b', 'x^2', 'a & b', '\\end{document}', '\\begin{itemize}\n\\item a\n',
+               '\\textbf{a', '\\href{a{b}{x}', '\\begin{lstlisting}[language={]\nx\n\\end{lstlisting}\n', '\\newpage', '#1']
+        for body in bad:
+            if not latexscan.scan(pre + body + '\n' + post)[1]:
+                raise RuntimeError('LaTeX scanner accepts %r' % body)
+        good = (pre + '\n\\section{T \\& \\$}\n\na \\textit{b} \\verb|c{}$|  \\href{http://x/\\%20y\\#f}{l} 50\\% \\^{} \\textbackslash{}\\{\n'
+                '\\begin{itemize}\n\\item x\n\\end{itemize}\n\\begin{tabular}{l c}\na & b \\\\\n\\hline\n\\end{tabular}\n'
+                '\n\\begin{lstlisting}[language=py]\nx = {1: "$"} % c\n\\end{lstlisting}\n' + post)
+        probs = latexscan.scan(good)[1]
+        if probs:
+            raise RuntimeError('LaTeX scanner rejects a well-formed sample: %r' % (probs,))
+        return 'scanner self-test: %d bad outputs rejected, 1 good accepted' % len(bad)
+
     def parts(self):
         return [Random()]
 
